@@ -437,6 +437,15 @@ fn main() {
             ff.block = body_block;
             ff.sig = sig;
         }
+        if let (None, Some(sig_txt)) = (fs.closure, fs.sig.as_ref()) {
+            // `sig` on an ordinary function: the overlay restates the signature (e.g. `F: Future` + `F::Output` as one type
+            // parameter); the body is the function's own
+            let sig: Signature = syn::parse_str(sig_txt).unwrap_or_else(|e| die(&format!("bad sig `{}`: {}", sig_txt, e)));
+            if sig.ident != ff.sig.ident || sig.inputs.len() != ff.sig.inputs.len() || sig.asyncness.is_some() != ff.sig.asyncness.is_some() {
+                die(&format!("lost anchor: `sig` of {}::{} no longer matches the function (name / arity / async)", fs.src, fs.path));
+            }
+            ff.sig = sig;
+        }
         let name = ff.sig.ident.to_string();
         if ff.sig.asyncness.is_some() {
             t.internal_async.insert(name.clone());
